@@ -7,7 +7,7 @@ import json, os, re, subprocess, sys, time
 ENV = dict(os.environ, GOFLAGS="-mod=mod", GOPROXY="off", GOSUMDB="off", GOTOOLCHAIN="local")
 def sh(cmd, cwd=None, env=ENV, timeout=3000):
     try:
-        p = subprocess.run(cmd, shell=True, cwd=cwd, env=env, capture_output=True, text=True, timeout=timeout)
+        p = subprocess.run(cmd, shell=True, cwd=cwd, env=env, capture_output=True, text=True, errors="replace", timeout=timeout)
         return p.returncode, p.stdout + p.stderr
     except subprocess.TimeoutExpired:
         return 124, "TIMEOUT"
